@@ -15,16 +15,49 @@ pub mod refs;
 #[macro_use]
 pub mod macros;
 
+pub mod pay;
+#[cfg(feature = "c01")]
+pub mod c01;
+#[cfg(feature = "c02")]
+pub mod c02;
+#[cfg(any(feature = "c04", feature = "c05"))]
+pub mod c04;
+#[cfg(feature = "c05")]
+pub mod c05;
+#[cfg(feature = "c08")]
+pub mod c08;
 #[cfg(feature = "c13")]
 pub mod c13;
+#[cfg(feature = "c14")]
+pub mod c14;
+#[cfg(feature = "c15")]
+pub mod c15;
+#[cfg(feature = "c17")]
+pub mod c17;
 #[cfg(feature = "c18")]
 pub mod c18;
 
 /// name -> body, for the native replay binary
 pub fn registry() -> Vec<(&'static str, fn(&mut src::Tape))> {
     let mut v: Vec<(&'static str, fn(&mut src::Tape))> = Vec::new();
+    #[cfg(feature = "c01")]
+    v.extend_from_slice(c01::ALL);
+    #[cfg(feature = "c02")]
+    v.extend_from_slice(c02::ALL);
+    #[cfg(feature = "c04")]
+    { v.extend_from_slice(c04::BASE); v.extend_from_slice(c04::LON_ALL); }
+    #[cfg(feature = "c05")]
+    { v.extend_from_slice(c05::BASE); v.extend_from_slice(c05::LON_ALL); }
+    #[cfg(feature = "c08")]
+    v.extend_from_slice(c08::ALL);
     #[cfg(feature = "c13")]
     v.extend_from_slice(c13::ALL);
+    #[cfg(feature = "c14")]
+    v.extend_from_slice(c14::ALL);
+    #[cfg(feature = "c15")]
+    v.extend_from_slice(c15::ALL);
+    #[cfg(feature = "c17")]
+    v.extend_from_slice(c17::ALL);
     #[cfg(feature = "c18")]
     v.extend_from_slice(c18::ALL);
     v
